@@ -153,6 +153,8 @@ where
     async fn send_msg(&self, msg: Msg) {
         if let ObserverState::Running(sender, _) = &self.state {
             let optype = msg.optype.clone();
+            #[cfg(pearl_verif)]
+            crate::verif::on_msg_sent();
             if let Err(e) = sender.send(msg).await {
                 error!(
                     "Can't send message to worker:\nOperation: {:?}\nReason: {:?}",
